@@ -136,7 +136,10 @@ Step(e) ==
          /\ Keep(<<cf, ph, pwm, mode, orig, reg, mtx, proc, db, cnt, ana, faults, starts, discarded, had>>)
     [] e.ev = "RunReturn" ->
          /\ ph' = [ph EXCEPT ![e.fan] = IF e.err THEN "Failed" ELSE @]
-         /\ Keep(<<cf, pwm, mode, orig, reg, mtx, ctx, proc, sigs, db, cnt, ana, faults, starts, discarded, had>>)
+         \* the daemon's fan-controller actor (backend.go) panics on ANY error that Run returns: an error returned by a
+         \* controller that had been regulating is an abrupt end of the whole daemon (start-up errors: outside C09)
+         /\ proc' = IF e.err /\ reg[e.fan] THEN "crashed" ELSE proc
+         /\ Keep(<<cf, pwm, mode, orig, reg, mtx, ctx, sigs, db, cnt, ana, faults, starts, discarded, had>>)
     [] e.ev = "Final" ->
          /\ proc' = IF e.crashed THEN "crashed" ELSE "exited"
          /\ pwm' = [f \in cf.fans |-> FanOf(e.regs, f).pwm]
